@@ -179,3 +179,7 @@ def run(ck):
     common.import_results(ck, C11, "2", "Poll::poll", "1")
     common.import_results(ck, C11, "2", "LoopSignal::wakeup", "1")
     common.import_results(ck, C17, "2", "IoLoopInner", "3")
+    if ck.has("stream"):
+        from props import C10 as _C10
+
+        common.import_results(ck, _C10, "6", "PingWaker", "3")
